@@ -334,6 +334,20 @@ def translate(repo):
     return res
 
 
+def bcol_coq(B):
+    """Coq text of the B column layout read from Get_B_e_pg"""
+    L = []
+    for dim, rows in B.items():
+        L.append("(* Get_B_e_pg, dim %d: column of the dof (node gradient g, component d), row r; c = cM *)" % dim)
+        L.append("Definition gen_Bcol%d (c : R) (g : nat -> R) (d r : nat) : R :=" % dim)
+        L.append("  match d, r with")
+        for (row, dof, der, scaled) in sorted(rows, key=lambda t: (t[1], t[0])):
+            L.append("  | %d%%nat, %d%%nat => %sg %d%%nat" % (dof, row, "c * " if scaled else "", der))
+        L.append("  | _, _ => 0")
+        L.append("  end.")
+    return L
+
+
 def emit_coq(res):
     L = ["(* GENERATED by translator/c13_builtins.py from FEM/Operators/*.py and FEM/_group_elem.py -- do not edit *)",
          "From Coq Require Import Reals Arith.", "From EFP Require Import C13_forms.", "Open Scope R_scope.", "",
@@ -346,14 +360,7 @@ def emit_coq(res):
     L.append("(* Get_N_pg_rep: repeat <= 1 returns N_pg; otherwise N_vect[:, r, arange(r, size, repeat)] = N_pg[:, 0, :] *)")
     L.append("Definition gen_Nrep (q : nat) (N : nat -> nat -> R) (p r col : nat) : R :=")
     L.append("  if (q <=? 1)%nat then N p col else if Nat.eqb (col mod q)%nat r then N p (col / q)%nat else 0.")
-    for dim, rows in res["B"].items():
-        L.append("(* Get_B_e_pg, dim %d: column of the dof (node gradient g, component d), row r; c = cM *)" % dim)
-        L.append("Definition gen_Bcol%d (c : R) (g : nat -> R) (d r : nat) : R :=" % dim)
-        L.append("  match d, r with")
-        for (row, dof, der, scaled) in sorted(rows, key=lambda t: (t[1], t[0])):
-            L.append("  | %d%%nat, %d%%nat => %sg %d%%nat" % (dof, row, "c * " if scaled else "", der))
-        L.append("  | _, _ => 0")
-        L.append("  end.")
+    L += bcol_coq(res["B"])
     L.append("(* thickness factors of the element arrays: Simulations/_thermal.py (`if self.mesh.dim == 2`) and")
     L.append("   Simulations/_weakforms.py (`1.0 if self.mesh.inDim == 3 else weakForms.thickness`) *)")
     L.append("Definition thermal_tfac (dim inDim : nat) (t : R) : R := if Nat.eqb dim 2 then t else 1.")
